@@ -1,11 +1,12 @@
 use crate::engine::CheckDef;
 
 pub mod common;
+pub mod c01;
 pub mod c05;
 pub mod c06;
 
 pub fn all() -> Vec<&'static CheckDef> {
-    vec![&c05::DEF, &c06::DEF]
+    vec![&c01::DEF, &c01::DEF_C02, &c05::DEF, &c06::DEF]
 }
 
 pub fn find(id: &str) -> Option<&'static CheckDef> {
